@@ -50,18 +50,34 @@ Ltac bool_hyps :=
          | H : (_ =? _) = true |- _ => apply Z.eqb_eq in H
          | H : (_ =? _) = false |- _ => apply Z.eqb_neq in H
          end.
+(* destruct a comparison everywhere: in the goal and in the equations recorded so far *)
+Ltac dcmp c :=
+  let H := fresh "Hc" in
+  destruct c eqn:H;
+  repeat match goal with
+         | H' : context [c] |- _ => lazymatch H' with H => fail | _ => rewrite H in H'; cbv iota in H' end
+         end.
+(* x <= y and y <= x: the two are equal (a test written with < or with <= on a tie) *)
+Ltac derive_eqs :=
+  repeat match goal with
+         | H1 : ?a <= ?b, H2 : ?b <= ?a |- _ =>
+             let E := fresh "E" in assert (E : a = b) by lia; clear H1 H2; try rewrite E in *
+         end.
+(* innermost first: a comparison whose operands still contain a conditional is left for later *)
+Ltac no_if t := lazymatch t with context [if _ then _ else _] => fail | _ => idtac end.
 Ltac split_cmp :=
   rewrite ?Z.geb_leb, ?Z.gtb_ltb;
   repeat (match goal with
-          | |- context [PrimFloat.leb ?a ?b] => destruct (PrimFloat.leb a b) eqn:?
-          | |- context [PrimFloat.ltb ?a ?b] => destruct (PrimFloat.ltb a b) eqn:?
-          | |- context [PrimFloat.eqb ?a ?b] => destruct (PrimFloat.eqb a b) eqn:?
-          | |- context [Z.ltb ?a ?b] => destruct (Z.ltb a b) eqn:?
-          | |- context [Z.leb ?a ?b] => destruct (Z.leb a b) eqn:?
-          | |- context [Z.eqb ?a ?b] => destruct (Z.eqb a b) eqn:?
-          | |- context [if ?c then _ else _] => destruct c eqn:?
+          | |- context [PrimFloat.leb ?a ?b] => no_if a; no_if b; dcmp (PrimFloat.leb a b)
+          | |- context [PrimFloat.ltb ?a ?b] => no_if a; no_if b; dcmp (PrimFloat.ltb a b)
+          | |- context [PrimFloat.eqb ?a ?b] => no_if a; no_if b; dcmp (PrimFloat.eqb a b)
+          | |- context [Z.ltb ?a ?b] => no_if a; no_if b; dcmp (Z.ltb a b)
+          | |- context [Z.leb ?a ?b] => no_if a; no_if b; dcmp (Z.leb a b)
+          | |- context [Z.eqb ?a ?b] => no_if a; no_if b; dcmp (Z.eqb a b)
+          | |- context [if ?c then _ else _] => no_if c; dcmp c
           end; cbn [orb andb negb]);
-  try reflexivity; try discriminate; try (exfalso; bool_hyps; lia).
+  try reflexivity; try discriminate;
+  try (bool_hyps; derive_eqs; first [reflexivity | exfalso; lia | repeat f_equal; lia]).
 
 (* math.Nextafter(x, math.MaxFloat64) of the translator's preamble is the model's *)
 Lemma leaf_nextafter_max_ok x : leaf_nextafter_max x = go_nextafter_max x.
@@ -134,12 +150,12 @@ Proof.
   set (nv := cool_down c st (now - now mod 1000) qps).
   rewrite ?Z.geb_leb, ?Z.gtb_ltb.
   repeat (match goal with
-          | |- context [Z.ltb ?a ?b] => destruct (Z.ltb a b) eqn:?
-          | |- context [Z.leb ?a ?b] => destruct (Z.leb a b) eqn:?
-          | |- context [if ?c then _ else _] => destruct c eqn:?
+          | |- context [Z.ltb ?a ?b] => no_if a; no_if b; dcmp (Z.ltb a b)
+          | |- context [Z.leb ?a ?b] => no_if a; no_if b; dcmp (Z.leb a b)
+          | |- context [if ?c then _ else _] => no_if c; dcmp c
           end; cbn [orb andb negb]);
     cbn [fold_left apply_act fst snd]; rewrite ?Z.eqb_refl; cbn [fst snd];
-    try reflexivity; try (exfalso; bool_hyps; lia).
+    try reflexivity; try (bool_hyps; derive_eqs; first [reflexivity | exfalso; lia | repeat f_equal; lia]).
 Qed.
 
 (* the second time in the same aligned second nothing is touched *)
@@ -151,7 +167,12 @@ Proof.
   assert (Hc : u64 (now - now mod 1000) = now - now mod 1000).
   { apply u64_id. unfold in_u64 in *. pose proof (Z.mod_pos_bound now 1000 ltac:(lia)).
     pose proof (Z.mod_le now 1000 ltac:(lia) ltac:(lia)). lia. }
-  rewrite Hc, H. reflexivity.
+  rewrite Hc. apply Z.leb_le in H.
+  repeat (match goal with
+          | |- context [Z.leb (now - now mod 1000) (last_filled st)] => dcmp (Z.leb (now - now mod 1000) (last_filled st))
+          | |- context [Z.ltb (last_filled st) (now - now mod 1000)] => dcmp (Z.ltb (last_filled st) (now - now mod 1000))
+          end; cbn [negb]);
+    try reflexivity; exfalso; bool_hyps; lia.
 Qed.
 
 Print Assumptions warmup_New_ok.
